@@ -95,6 +95,18 @@ class Collector:
         self.bucket_counts = Counter()
         self.max_samples = 12
         self.extra: Dict[str, Any] = {}
+        self.failing_cases = 0
+        self._open = None
+        # once this many cases have failed the run has its verdict; remaining cases are skipped
+        # (counted) so that a badly broken tree cannot make a check run for hours
+        self.max_failing_cases = 400
+        self.skipped_after_limit = 0
+
+    def saturated(self) -> bool:
+        if self.failing_cases >= self.max_failing_cases:
+            self.skipped_after_limit += 1
+            return True
+        return False
 
     def add(self, case: Any, out: Outcome) -> None:
         self.evaluations += 1
@@ -112,6 +124,12 @@ class Collector:
                 self.nontrivial.add(out.nontrivial)
                 if len(self.samples) < self.max_samples:
                     self.samples.append(out.sample if out.sample is not None else case)
+        if out.failures:
+            if self._open is None:
+                self._open = load_findings(self.prop_id)[0]
+            # failures that belong to recorded known findings do not count towards the limit
+            if any(not any(finding_matches(e, f.bucket) for e in self._open) for f in out.failures):
+                self.failing_cases += 1
         for f in out.failures:
             self.bucket_counts[f.bucket] += 1
             lst = self.buckets.setdefault(f.bucket, [])
@@ -131,6 +149,8 @@ class Collector:
         for s in other.samples:
             if len(self.samples) < self.max_samples:
                 self.samples.append(s)
+        self.failing_cases += other.failing_cases
+        self.skipped_after_limit += other.skipped_after_limit
         self.bucket_counts.update(other.bucket_counts)
         for b, lst in other.buckets.items():
             self.buckets.setdefault(b, []).extend(lst)
@@ -275,6 +295,8 @@ def drive(strategy, run_case: Callable[[Any], Outcome], collector: Collector, se
     )
     @given(strategy)
     def body(case):
+        if collector.saturated():
+            return
         out = run_case(case)
         collector.add(case, out)
 
@@ -352,6 +374,7 @@ def finish(
         "exhaustive": bool(exhaustive),
         "classes": dict(sorted(collector.classes.items())),
         "invalid_cases": collector.invalid,
+        "cases_skipped_after_failure_limit": collector.skipped_after_limit,
         "inconclusive": dict(collector.inconclusive),
         "excluded_by_construction": dict(sorted(collector.excluded.items())),
         "excluded_known": {k: v for k, v in sorted(known_hit.items())},
